@@ -34,6 +34,7 @@ pub fn run_line(e: &mut Eng, dbfile: &PathBuf, line: &str) -> Option<eng::Out> {
         "flush" => e.flush(),
         "vacuum" => e.vacuum(),
         "audit" => e.audit(),
+        "dump" => e.dump(),
         "analyze" => e.analyze(),
         "explain" => e.explain(rest),
         _ => {
